@@ -427,12 +427,13 @@ def check_small(case, v):
         label = f"Solver(threshold={theta:g}, prune={sprune})"
         if sweeps is None:
             # the no-solution error was raised (pruning requested): legitimate only if state 0 is worth 0 (or its
-            # value is below the numerical tolerance); the values computed so far are still checked
+            # value is below the numerical tolerance).  Nothing is reported in that case, so nothing else is
+            # examined: what the nodes happen to hold when the error is raised is not an output (an implementation
+            # may well refuse such a game before it iterates at all).
             v.cls("solver_no_solution")
             if pstar[0] > max(theta * 100, 1e-6):
                 v.fail("nosol-but-positive", f"{label} raised no-solution, exact value of state 0 is {pstar[0]}")
-            sweeps = 0
-            jac_ok = False
+            return v
         compare_exact(v, game, facts, phat, pstar, theta, sweeps, label)
         return v
     # StochasticGame.solve(), requested mode + the other mode for the DIFF clause
